@@ -271,7 +271,8 @@ func Equal_Q(a, b MalType) bool {
 			return false
 		}
 		for k, v := range am {
-			if !Equal_Q(v, bm[k]) {
+			bv, ok := bm[k]
+			if !ok || !Equal_Q(v, bv) {
 				return false
 			}
 		}
